@@ -26,6 +26,7 @@ type Profile struct {
 	SeqOnly     bool
 	MinMembers  int // try to get that many members into S0 early
 	Flags       bool
+	PDie        float64 // share of the departures that are protocol errors instead of closes
 }
 
 var baseWeights = map[string]int{
@@ -301,7 +302,11 @@ func GenHistory(seed uint64, p *Profile) *Scenario {
 			if r.Bool(0.3) {
 				op = "rst"
 			}
-			g.steps = append(g.steps, Step{Conn: c, Op: op})
+			st := Step{Conn: c, Op: op}
+			if r.Bool(g.p.PDie) {
+				st = Step{Conn: c, Op: "die", Variant: []string{"unmasked", "text", "no_timestamp", "bad_body", "empty_receipt", "not_protobuf", "close_frame"}[r.Intn(7)]}
+			}
+			g.steps = append(g.steps, st)
 			g.dead[c] = true
 			g.joined[c] = ""
 			continue
